@@ -1,5 +1,6 @@
 import BddVerif.Lemmas.AlgoEq2RenBase
 import BddVerif.Lemmas.VarSetNames
+import BddVerif.Lemmas.VarSetSat
 /-!
 # `BddVariableSet` as translated (src/_impl_bdd_variable_set.rs) = the hand model `Model/VarSet.lean`
 
@@ -141,4 +142,76 @@ theorem mk_not_var_by_name_rel (T : VSet) (s : String) :
   cases (toVS T).varByName s with
   | none => exact .panic _ _
   | some x => exact .ok _
+
+/-! ## chained with `Props/C16.lean` (statements about the TRANSLATED constructors) -/
+
+/-- `mk_var`, `mk_not_var`, `mk_literal` of the translated variable set, for a variable of the set: the literal, in
+    canonical form (`Props.C16.literal_spec`) -/
+theorem mk_literal_translated_spec (T : VSet) (x : Nat) (hx : x < T.1) :
+    Algo2.BddVariableSet_mk_var T x = canon T.1 (fun v => v x) ∧
+    Algo2.BddVariableSet_mk_not_var T x = canon T.1 (fun v => !v x) ∧
+    ∀ b, Algo2.BddVariableSet_mk_literal T x b = canon T.1 (fun v => v x == b) := by
+  refine ⟨?_, ?_, ?_⟩
+  · rw [mk_var_eq]; exact (VS.sem_mkVar T.1 x hx).eq
+  · rw [mk_not_var_eq]; exact (VS.sem_mkNotVar T.1 x hx).eq
+  · intro b; rw [mk_literal_eq]; exact (VS.sem_mkLiteral T.1 x b hx).eq
+
+/-- a `SetOf` set is `Faithful` in the sense of `Lemmas/VarSetNames.lean` (so `Props.C16.name_round_trips` and
+    `literal_by_name_spec` apply to the translated `var_by_name` / `name_of` / `mk_var_by_name`) -/
+theorem SetOf.faithful {T : VSet} {names : List String} (h : SetOf T names) (hnd : names.Nodup) :
+    VS.Faithful (toVS T) names := by
+  have hidx : ∀ j (hj : j < names.length), names.idxOf? names[j] = some j := by
+    intro j hj
+    rw [List.idxOf?_eq_some_iff]
+    refine ⟨hj, rfl, ?_⟩
+    intro k hk hkj
+    have := (List.getElem_inj (h₀ := by omega) (h₁ := hj) hnd).mp hkj
+    omega
+  refine ⟨h.count, ?_, ?_, ?_, ?_, ?_, ?_⟩
+  · simp [VS.VarSet.variables, toVS, h.count]
+  · simp [VS.VarSet.variableNames, toVS, h.arr]
+  · intro j hj
+    show T.2.2[names[j]]? = some j
+    rw [h.index, hidx j hj]
+  · intro s hs
+    show T.2.2[s]? = none
+    rw [h.index, List.idxOf?_eq_none_iff]; exact hs
+  · intro j hj
+    simp [VS.VarSet.nameOf, toVS, h.arr, hj]
+  · intro j hj
+    have : (toVS T).names[j]? = none := by simp [toVS, h.arr, hj]
+    simp only [VS.VarSet.nameOf, this]
+    exact ⟨_, rfl⟩
+
+/-- the set built by the translated `new_anonymous(k)` is faithful for the names `x_0 … x_{k-1}` -/
+theorem new_anonymous_faithful (k : Nat) (hk : k < 65534) :
+    ∃ T, Algo2.BddVariableSet_new_anonymous k = .ok T ∧ VS.Faithful (toVS T) ((List.range k).map VS.anonName) := by
+  obtain ⟨T, h1, h2⟩ := new_anonymous_ok k hk
+  exact ⟨T, h1, h2.faithful (VS.anon_nodup k)⟩
+
+/-! ## non-vacuity -/
+
+/-- on the set built by the GENERATED `new_anonymous(3)`: look-ups by name, names of variables, literals by name -/
+example : ∃ T, Algo2.BddVariableSet_new_anonymous 3 = .ok T ∧
+    Algo2.BddVariableSet_var_by_name T "x_1" = some 1 ∧ Algo2.BddVariableSet_var_by_name T "y" = none ∧
+    Algo2.BddVariableSet_name_of T 2 = .ok "x_2" ∧ (∃ m, Algo2.BddVariableSet_name_of T 3 = .panic m) ∧
+    Algo2.BddVariableSet_mk_var_by_name T "x_1" = .ok #[⟨3, 0, 0⟩, ⟨3, 1, 1⟩, ⟨1, 0, 1⟩] ∧
+    (∃ m, Algo2.BddVariableSet_mk_not_var_by_name T "y" = .panic m) := by
+  obtain ⟨T, h1, hs⟩ := new_anonymous_ok 3 (by decide)
+  have h3 : T.1 = 3 := by rw [hs.count]; rfl
+  have hx1 : Algo2.BddVariableSet_var_by_name T "x_1" = some 1 := by
+    rw [var_by_name_eq]; show T.2.2["x_1"]? = _; rw [hs.index]; decide
+  have hy : Algo2.BddVariableSet_var_by_name T "y" = none := by
+    rw [var_by_name_eq]; show T.2.2["y"]? = _; rw [hs.index]; decide
+  refine ⟨T, h1, hx1, hy, ?_, ?_, ?_, ?_⟩
+  · unfold Algo2.BddVariableSet_name_of; rw [hs.arr]; rfl
+  · unfold Algo2.BddVariableSet_name_of; rw [hs.arr]; exact ⟨_, rfl⟩
+  · unfold Algo2.BddVariableSet_mk_var_by_name; rw [hx1]
+    show Outcome.ok (Algo.Bdd_mk_var T.1 1) = _
+    rw [h3]; rfl
+  · unfold Algo2.BddVariableSet_mk_not_var_by_name; rw [hy]; exact ⟨_, rfl⟩
+
+/-- 65534 variables are refused -/
+example : ∃ m, Algo2.BddVariableSet_new_anonymous 65534 = .panic m := new_anonymous_panic _ (by decide)
+
 end B.AlgoEq2VS
